@@ -62,6 +62,12 @@ func init() {
 			}
 			for i := int64(0); i <= 1; i++ {
 				ts = append(ts, Task{Pkg: "datamatrix", Func: "VerifC18DM", Args: ints(i), Note: "Data Matrix written, padded, located and read (concrete content)"})
+				for rot := int64(0); rot < 4; rot++ {
+					ts = append(ts, Task{Pkg: "datamatrix", Func: "VerifC09DMImage", Args: ints(i, 150-60*((rot+i)%2), 10-4*(rot%2), rot), Note: "Data Matrix: concrete content, requested size, white border, quarter turns: content or a reader error"})
+					if thorough {
+						ts = append(ts, Task{Pkg: "datamatrix", Func: "VerifC09DMImage", Args: ints(i, 200, 0, rot)}, Task{Pkg: "datamatrix", Func: "VerifC09DMImage", Args: ints(i, 60, 3, rot)})
+					}
+				}
 			}
 			return ts
 		},
@@ -69,11 +75,11 @@ func init() {
 			return map[string]interface{}{
 				"oned":      "templates of C03 with one (thorough: every position; two for digit symbologies and Codabar) free character over the alphabet, written at height 24, turned by 1, 2, 3 quarter turns; reading through the image path, TRY_HARDER for sideways",
 				"qr_mirror": "all 32 (level, mask) configurations with 2..7 (thorough also a second class) free characters of digits/alphanumeric/bytes/UTF-8, versions 1 (chosen), 2, 7: transposed module matrix through the real Decoder.Decode; Reed-Solomon stubbed on both sides, configurations whose un-mirrored format read would succeed are skipped (none occurred)",
-				"located":   "two concrete contents, 2..4 (thorough 1..6) pixels per module, quiet zone 4 (and 0..2), four rotations, mirrored or not, through binariser, detector and decoder; Data Matrix: two concrete contents padded by 10 pixels",
+				"located":   "two concrete contents, 2..4 (thorough 1..6) pixels per module, quiet zone 4 (and 0..2), four rotations, mirrored or not, through binariser, detector and decoder; Data Matrix: two concrete contents with a white border of 6 or 10 pixels in all four orientations",
 			}
 		},
 		Exhaustive:  func(tier string) bool { return false },
-		Outside:     []string{"'never different content' for arbitrary damaged or mis-sampled grids rests on the Reed-Solomon/BCH/check-digit layers (C04, C05, C10) and is not re-established through the detectors here", "free content through the locating path (detector control flow depends on every pixel: not encodable within reach); the located tasks are concrete paths", "Data Matrix rotation (the detector's corner ordering) beyond the upright padded case", "non-integer scales, perspective, noise"},
+		Outside:     []string{"'never different content' for arbitrary damaged or mis-sampled grids rests on the Reed-Solomon/BCH/check-digit layers (C04, C05, C10) and is not re-established through the detectors here", "free content through the locating path (detector control flow depends on every pixel: not encodable within reach); the located tasks are concrete paths", "non-integer scales, perspective, noise"},
 		Stubs:       []string{"generateECBytes -> verifStubEC and (*Decoder).correctErrors -> no-op in the QR mirror tasks"},
 		Assumptions: commonAssumptions,
 	}
